@@ -1,5 +1,6 @@
 import FcpptProofs.C14.Old
 import FcpptProofs.C14.Bits
+import FcpptProofs.C14.Member
 /-!
 # C14 — vector, dim and matrix arithmetic obeys the exact ring and module laws
 
@@ -417,6 +418,192 @@ theorem bitStrings_length (n : Nat) : (bitStrings n).length = 2 ^ (n + 1) := Lem
 theorem bitStrings_get (n : Nat) (k : Nat) (hk : k < (bitStrings n).length) (i : Fin (n + 1)) :
     ((bitStrings n)[k]).get i = bitOf k i.val := Lemma.get_bitStrings n k hk i
 
+/-! ## 10. member operators: in-place updates of objects in memory, operands that alias the target
+
+`Mem`, `Ref` (a storage as an lvalue), `Ref.load` (the value an object has at a moment): `Model/C14/Member.lean`.
+Every theorem compares the object *after* the call with the free operator of §3 applied to the values the operands had
+*before* the call, per component, for all sizes and all three storage kinds. -/
+
+/-- `storage[i]` of an lvalue storage is the cell `base + i` (static storage: its array; buffer view: the pointer;
+    row view: `impl[offset + i]`) -/
+theorem addr_eq_base_add {len n : Nat} (r : Ref len n) (i : Fin n) : (r.addr i).val = r.base + i.val := Lemma.addr_val r i
+
+theorem addr_injective {len n : Nat} (r : Ref len n) : Function.Injective r.addr := Lemma.addr_injective r
+
+/-- the components of the value of an object are the cells read through its references -/
+theorem load_get {len n : Nat} (mem : Mem len) (r : Ref len n) (i : Fin n) : (r.load mem).get i = r.read mem i := Lemma.get_load mem r i
+
+/-- the row view `at_r<i>(m)` of a matrix in memory denotes the row view of the matrix's value -/
+theorem load_atR {len r c : Nat} (m : MatRef len r c) (mem : Mem len) (i : Fin r) : (m.atR i).load mem = (m.load mem).atR i := rfl
+
+/-- the reference `at_r_c<i, j>(m)` / `m.mij()` reads the entry `(i, j)` of the matrix's value -/
+theorem load_atRC {len r c : Nat} (m : MatRef len r c) (mem : Mem len) (i : Fin r) (j : Fin c) : mem[m.atRC i j] = (m.load mem).atRC i j := by
+  show mem[(m.atR i).addr j] = ((m.load mem).atR i).get j
+  rw [← load_atR]; exact (Lemma.get_load mem (m.atR i) j).symm
+
+/-- which operands `left op= right` supports: exactly those where the target starts at or before the right operand, or
+    behind its end.  (The right operand may therefore be the same object, overlap the target from behind, or be disjoint.) -/
+theorem noClobber_iff {len n : Nat} (l r : Ref len n) : NoClobber l r ↔ (l.base ≤ r.base ∨ r.base + n ≤ l.base) := Lemma.noClobber_iff l r
+
+/-- the right operand is the target itself: `v += v`, `v *= v`, `m -= m` -/
+theorem noClobber_self {len n : Nat} (v : Ref len n) : NoClobber v v := Lemma.noClobber_self v
+
+theorem noClobber_of_disjoint {len n : Nat} (l r : Ref len n) (h : ∀ i j, l.addr i ≠ r.addr j) : NoClobber l r := fun i j _ => h j i
+
+/-- two row views of one matrix, in any order, equal or different rows: `at_r<0>(m) += at_r<1>(m)`, `at_r<1>(m) -= at_r<1>(m)` -/
+theorem noClobber_rows {len r c : Nat} (m : MatRef len r c) (i j : Fin r) : NoClobber (m.atR i) (m.atR j) := Lemma.noClobber_rows m i j
+
+/-- `l += r` is the free `l + r` on the values before the call -/
+theorem addAssign_eq_add {len n : Nat} (l r : Ref len n) (mem : Mem len) (h : NoClobber l r) (i : Fin n) :
+    (l.load (addAssign l r mem)).get i = (add (l.load mem) (r.load mem)).get i := by
+  simp only [add, Lemma.get_binaryMap, Lemma.get_load]
+  exact (Lemma.memberOperator_elem (· + ·) elemAdd (fun _ _ _ => rfl) l r mem h).1 i
+
+/-- `l -= r` is the free `l - r` -/
+theorem subAssign_eq_sub {len n : Nat} (l r : Ref len n) (mem : Mem len) (h : NoClobber l r) (i : Fin n) :
+    (l.load (subAssign l r mem)).get i = (sub (l.load mem) (r.load mem)).get i := by
+  simp only [sub, Lemma.get_binaryMap, Lemma.get_load]
+  exact (Lemma.memberOperator_elem (· - ·) elemSub (fun _ _ _ => rfl) l r mem h).1 i
+
+/-- `l *= r` (component-wise) is the free `l * r` -/
+theorem mulAssign_eq_mul {len n : Nat} (l r : Ref len n) (mem : Mem len) (h : NoClobber l r) (i : Fin n) :
+    (l.load (mulAssign l r mem)).get i = (mul (l.load mem) (r.load mem)).get i := by
+  simp only [mul, Lemma.get_binaryMap, Lemma.get_load]
+  exact (Lemma.memberOperator_elem (· * ·) elemMul (fun _ _ _ => rfl) l r mem h).1 i
+
+/-- `+=`, `-=`, `*=` change no cell outside the target (whatever the operands are) -/
+theorem memberOps_frame {len n : Nat} (l r : Ref len n) (mem : Mem len) (a : Fin len) (ha : l.Outside a) :
+    (addAssign l r mem)[a] = mem[a] ∧ (subAssign l r mem)[a] = mem[a] ∧ (mulAssign l r mem)[a] = mem[a] :=
+  ⟨Lemma.memberOperator_frame (· + ·) elemAdd (fun _ _ _ => rfl) l r mem a ha,
+   Lemma.memberOperator_frame (· - ·) elemSub (fun _ _ _ => rfl) l r mem a ha,
+   Lemma.memberOperator_frame (· * ·) elemMul (fun _ _ _ => rfl) l r mem a ha⟩
+
+/-- `v += v` doubles, `v -= v` is null, `v *= v` squares every component -/
+theorem memberOps_self {len n : Nat} (v : Ref len n) (mem : Mem len) (i : Fin n) :
+    (v.load (addAssign v v mem)).get i = (v.load mem).get i + (v.load mem).get i ∧
+    (v.load (subAssign v v mem)).get i = 0 ∧
+    (v.load (mulAssign v v mem)).get i = (v.load mem).get i * (v.load mem).get i := by
+  refine ⟨?_, ?_, ?_⟩
+  · rw [addAssign_eq_add v v mem (noClobber_self v)]; simp [add]
+  · rw [subAssign_eq_sub v v mem (noClobber_self v)]; simp [sub]
+  · rw [mulAssign_eq_mul v v mem (noClobber_self v)]; simp [mul]
+
+/-- `v *= s` is the free `v * s` with the value `s` had before the call — for **every** scalar argument, also a reference to
+    a component of `v` itself (`v *= v.x()`, `m *= at_r_c<1,1>(m)`, `d *= d.w()`): the factor is copied at the call -/
+theorem mulAssignScalar_eq_smulR {len n : Nat} (v : Ref len n) (s : Scalar len) (mem : Mem len) (i : Fin n) :
+    (v.load (mulAssignScalar v s mem)).get i = (smulR (v.load mem) (s.read mem)).get i := by
+  simp only [smulR, Lemma.get_map, Lemma.get_load, mulAssignScalar]
+  exact (Lemma.multiplyScalar_spec v (s.read mem) mem).1 i
+
+/-- … in particular for the scalar `at<k>(v)` of the target -/
+theorem mulAssignScalar_own_component {len n : Nat} (v : Ref len n) (k : Fin n) (mem : Mem len) (i : Fin n) :
+    (v.load (mulAssignScalar v (.cell (v.atI k)) mem)).get i = (v.load mem).get i * (v.load mem).get k := by
+  rw [mulAssignScalar_eq_smulR]; simp [smulR, Lemma.get_load, Scalar.read, Ref.read, Ref.atI]
+
+theorem mulAssignScalar_frame {len n : Nat} (v : Ref len n) (s : Scalar len) (mem : Mem len) (a : Fin len) (ha : v.Outside a) :
+    (mulAssignScalar v s mem)[a] = mem[a] := (Lemma.multiplyScalar_spec v (s.read mem) mem).2 a ha
+
+/-- the converting `operator=` copies the value the right operand had before the call -/
+theorem assignConv_eq {len n : Nat} (l r : Ref len n) (mem : Mem len) (h : NoClobber l r) (i : Fin n) :
+    (l.load (assignConv l r mem)).get i = (r.load mem).get i := by
+  simp only [Lemma.get_load, assignConv]
+  exact (Lemma.assign_spec l r mem h).1 i
+
+theorem assignConv_frame {len n : Nat} (l r : Ref len n) (mem : Mem len) (a : Fin len) (ha : l.Outside a) : (assignConv l r mem)[a] = mem[a] :=
+  Lemma.loop_frame n l.addr _ (fun _ _ _ h => Lemma.set_frame _ _ _ _ h) mem a ha
+
+/-- copy assignment between two static objects copies the value (all reads happen before the writes: no condition) -/
+theorem copyAssign_static {len n : Nat} (base : Nat) (hb : base + n ≤ len) (other : Ref len n) (mem : Mem len) (i : Fin n) :
+    (copyAssign (.static base hb) other mem).2 = .static base hb ∧
+    ((Ref.static base hb).load (copyAssign (.static base hb) other mem).1).get i = (other.load mem).get i := by
+  refine ⟨rfl, ?_⟩
+  simp only [Lemma.get_load, copyAssign, Ref.read, Ref.write]
+  rw [(Lemma.loop_write_const n (Ref.static base hb).addr (fun i => (Vector.ofFn fun i => mem[other.addr i])[i]) mem (Lemma.addr_injective _)).1 i]
+  simp
+
+/-- copy assignment between two views of the same type copies the *view*: no cell changes, the left object afterwards
+    refers to the cells of the right one (`auto r0 = m.get_unsafe(0); r0 = m.get_unsafe(1);` leaves `m` as it is) -/
+theorem copyAssign_view {len n : Nat} (self other : Ref len n) (mem : Mem len) (h : ∀ base hb, self ≠ .static base hb) :
+    copyAssign self other mem = (mem, other) := by
+  cases self with
+  | static base hb => exact absurd rfl (h base hb)
+  | buffer ptr hp => rfl
+  | rowView impl offset ho => rfl
+
+/-- `detail::copy` (converting constructor into static storage) is `to_array` of the value -/
+theorem copy_eq {len n : Nat} (arg : Ref len n) (mem : Mem len) : copy arg mem = fromArray (toArray (arg.load mem)) := by
+  simp only [copy, toArray]
+  congr 1
+  ext i hi
+  simp [Lemma.get_load]
+
+theorem ref_getUnsafe_ok {len n : Nat} (v : Ref len n) (i : Fin n) : v.getUnsafe i.val = .ok (v.atI i) := by simp [Ref.getUnsafe, Ref.atI]
+theorem ref_getUnsafe_oob {len n : Nat} (v : Ref len n) (i : Nat) (h : n ≤ i) : v.getUnsafe i = .error .oob := by
+  simp [Ref.getUnsafe, Nat.not_lt.2 h]
+
+/-- `at<k>(v) = x` changes component `k` and nothing else -/
+theorem setElem_eq {len n : Nat} (v : Ref len n) (k : Fin n) (x : Int) (mem : Mem len) (i : Fin n) :
+    (v.load (setElem (v.atI k) x mem)).get i = if i = k then x else (v.load mem).get i := by
+  simp only [Lemma.get_load, Ref.read, setElem, Ref.atI, Fin.getElem_fin]
+  by_cases h : i = k
+  · subst h; simp
+  · rw [if_neg h, Vector.getElem_set_ne]
+    exact fun e => h (Lemma.addr_injective v (Fin.ext e)).symm
+
+/-! ### matrices -/
+
+/-- `m += x` on matrices is the free `+` (Mathlib's), also for `m += m` -/
+theorem mat_addAssign {len r c : Nat} (m x : MatRef len r c) (mem : Mem len) (h : NoClobber m.s x.s) :
+    (m.load (addAssign m.s x.s mem)).toMatrix = (m.load mem).toMatrix + (x.load mem).toMatrix := by
+  ext i j
+  simp only [Lemma.Mat.toMatrix_apply, Matrix.add_apply, Lemma.load_atRC]
+  exact (Lemma.memberOperator_elem (· + ·) elemAdd (fun _ _ _ => rfl) m.s x.s mem h).1 _
+
+theorem mat_subAssign {len r c : Nat} (m x : MatRef len r c) (mem : Mem len) (h : NoClobber m.s x.s) :
+    (m.load (subAssign m.s x.s mem)).toMatrix = (m.load mem).toMatrix - (x.load mem).toMatrix := by
+  ext i j
+  simp only [Lemma.Mat.toMatrix_apply, Matrix.sub_apply, Lemma.load_atRC]
+  exact (Lemma.memberOperator_elem (· - ·) elemSub (fun _ _ _ => rfl) m.s x.s mem h).1 _
+
+/-- `m *= s` is `s • m` with the value `s` had before the call, for every scalar argument — also an entry of `m` -/
+theorem mat_mulAssignScalar {len r c : Nat} (m : MatRef len r c) (s : Scalar len) (mem : Mem len) :
+    (m.load (mulAssignScalar m.s s mem)).toMatrix = s.read mem • (m.load mem).toMatrix := by
+  ext i j
+  simp only [Lemma.Mat.toMatrix_apply, Matrix.smul_apply, Lemma.load_atRC, mulAssignScalar, smul_eq_mul]
+  rw [(Lemma.multiplyScalar_spec m.s (s.read mem) mem).1, Int.mul_comm]
+
+/-- a write through a row view changes the matrix: after `at_r<i>(m) += v` row `i` of `m` is the old row plus `v`, the other
+    rows are unchanged -/
+theorem row_addAssign {len r c : Nat} (m : MatRef len r c) (i : Fin r) (v : Ref len c) (mem : Mem len) (h : NoClobber (m.atR i) v)
+    (i' : Fin r) (j : Fin c) :
+    (m.load (addAssign (m.atR i) v mem)).atRC i' j =
+      if i' = i then (m.load mem).atRC i j + (v.load mem).get j else (m.load mem).atRC i' j := by
+  by_cases hi : i' = i
+  · subst hi
+    rw [if_pos rfl]
+    have := addAssign_eq_add (m.atR i') v mem h j
+    simpa [load_atR, add, Mat.atRC] using this
+  · rw [if_neg hi, ← load_atRC, ← load_atRC]
+    exact (memberOps_frame (m.atR i) v mem _ fun k => Lemma.rows_disjoint m hi j k).1
+
+/-- `at_r<i>(m) += at_r<j>(m)` for any two rows of the same matrix (also `i = j`) -/
+theorem row_addAssign_row {len r c : Nat} (m : MatRef len r c) (i j : Fin r) (mem : Mem len) (i' : Fin r) (k : Fin c) :
+    (m.load (addAssign (m.atR i) (m.atR j) mem)).atRC i' k =
+      if i' = i then (m.load mem).atRC i k + (m.load mem).atRC j k else (m.load mem).atRC i' k := by
+  rw [row_addAssign m i (m.atR j) mem (noClobber_rows m i j)]; rfl
+
+/-- `at_r<i>(m) *= s` scales row `i` by the value `s` had before the call (also `at_r<1>(m) *= m.m10()`), other rows unchanged -/
+theorem row_mulAssignScalar {len r c : Nat} (m : MatRef len r c) (i : Fin r) (s : Scalar len) (mem : Mem len) (i' : Fin r) (j : Fin c) :
+    (m.load (mulAssignScalar (m.atR i) s mem)).atRC i' j =
+      if i' = i then (m.load mem).atRC i j * s.read mem else (m.load mem).atRC i' j := by
+  by_cases hi : i' = i
+  · subst hi
+    rw [if_pos rfl]
+    have := mulAssignScalar_eq_smulR (m.atR i') s mem j
+    simpa [load_atR, smulR, Mat.atRC] using this
+  · rw [if_neg hi, ← load_atRC, ← load_atRC]
+    exact mulAssignScalar_frame (m.atR i) s mem _ fun k => Lemma.rows_disjoint m hi j k
+
 /-! ## non-vacuity and the repaired defect -/
 
 /-- a concrete non-trivial instance of the hypotheses: a unimodular 2×2 matrix in view storage -/
@@ -436,5 +623,25 @@ example : ((Mat.single 5).adjugate).atRC 0 0 = 1 := by decide
     `A · adj A = [0] ≠ [5] = det A · 1` — the property was false for every 1×1 matrix with non-zero entry -/
 example : ((Mat.single 5).oldAdjugate).atRC 0 0 = 0 := by decide
 example : ((Mat.single 5).mul (Mat.single 5).oldAdjugate).atRC 0 0 ≠ (Mat.smulL (Mat.single 5).oldDet (Mat.identity 1)).atRC 0 0 := by decide
+
+/-- member operators, non-vacuity: `v = (2, 3, -4)`, `v *= v.x()` gives `(4, 6, -8)` (the factor is copied at the call) -/
+example : (mulAssignScalar (.static 0 (by decide) : Ref 3 3) (.cell ⟨0, by decide⟩) #v[2, 3, -4]).toList = [4, 6, -8] := by decide
+
+/-- **refuted seeded variant C14-1** (`multiply_scalar` takes the factor by `const &` and captures it by reference):
+    `(2, 3, -4) *= x` gives `(4, 12, -16)` — `x` is already 4 when `y` and `z` are scaled — so `*=` is not the free `*` -/
+example : (multiplyScalarByRef (.static 0 (by decide) : Ref 3 3) (.cell ⟨0, by decide⟩) #v[2, 3, -4]).toList = [4, 12, -16] := by decide
+example : ∃ (v : Ref 3 3) (k : Fin 3) (mem : Mem 3) (i : Fin 3),
+    (v.load (multiplyScalarByRef v (.cell (v.atI k)) mem)).get i ≠ (smulR (v.load mem) ((v.load mem).get k)).get i :=
+  ⟨.static 0 (by decide), 0, #v[2, 3, -4], 1, by decide⟩
+
+/-- `at_r<0>(m) += at_r<1>(m)` and `at_r<1>(m) += at_r<1>(m)` on the 2×2 matrix `[[1, 2], [3, 4]]` -/
+example : (addAssign ((⟨.static 0 (by decide)⟩ : MatRef 4 2 2).atR 0) ((⟨.static 0 (by decide)⟩ : MatRef 4 2 2).atR 1) #v[1, 2, 3, 4]).toList = [4, 6, 3, 4] := by decide
+example : (addAssign ((⟨.static 0 (by decide)⟩ : MatRef 4 2 2).atR 1) ((⟨.static 0 (by decide)⟩ : MatRef 4 2 2).atR 1) #v[1, 2, 3, 4]).toList = [1, 2, 6, 8] := by decide
+
+/-- the hypothesis `NoClobber` is needed: a target view that starts one cell *behind* the start of an overlapping right operand
+    reads cells it has already written (`[1, 2, 3]`: the view at 1 `+=` the view at 0 gives `[1, 3, 6]`, the free `+` would give `[1, 3, 5]`) -/
+example : (addAssign (.buffer 1 (by decide) : Ref 3 2) (.buffer 0 (by decide)) #v[1, 2, 3]).toList = [1, 3, 6] := by decide
+example : ¬ NoClobber (.buffer 1 (by decide) : Ref 3 2) (.buffer 0 (by decide)) := by
+  rw [noClobber_iff]; decide
 
 end Fcppt.C14
